@@ -81,22 +81,26 @@ func instrDominates(a, b ssa.Instruction) bool {
 // holds reports whether at instruction at, fn holds the mutex of base (write lock if needWrite)
 // with a deferred matching unlock.
 func holds(fn *ssa.Function, calls []lockCall, base ssa.Value, at ssa.Instruction, needWrite bool) bool {
-	locked, unlocked := false, false
 	for _, c := range calls {
-		if c.base != base {
+		if c.base != base || c.unlock || c.deferred || !instrDominates(c.ins, at) || !(c.write || !needWrite) {
 			continue
 		}
-		if !c.unlock && !c.deferred && instrDominates(c.ins, at) && (c.write || !needWrite) {
-			locked = true
-			// matching deferred unlock
-			for _, d := range calls {
-				if d.base == base && d.unlock && d.deferred && d.write == c.write && instrDominates(c.ins, d.ins) {
-					unlocked = true
-				}
+		// the lock c dominates the access; it is still held there unless an explicit unlock of the
+		// same kind can run between the two (that every lock is released at all is lock-release)
+		stillHeld := true
+		for _, d := range calls {
+			if d.base != base || !d.unlock || d.deferred || d.write != c.write {
+				continue
+			}
+			if reachableAfter(d.ins, at) && !reachableAfter(d.ins, c.ins) && reachableAfter(c.ins, d.ins) {
+				stillHeld = false
 			}
 		}
+		if stillHeld {
+			return true
+		}
 	}
-	return locked && unlocked
+	return false
 }
 
 func (e *Engine) lockHeld(prop string) []*Oblig {
@@ -232,27 +236,52 @@ func (e *Engine) lockHeld(prop string) []*Oblig {
 				}
 			}
 		}
-		// call sites of helpers
-		for h, needW := range helperNeeds {
-			callers := 0
-			for _, fn := range e.repoFunctions() {
-				mi := fieldIdx(guard[gnames[0]])
-				calls := mutexCalls(fn, t, mi)
-				for _, b := range fn.Blocks {
-					for _, ins := range b.Instrs {
-						c, ok := ins.(*ssa.Call)
-						if !ok || c.Call.StaticCallee() != h {
-							continue
-						}
-						callers++
-						if !holds(fn, calls, c.Call.Args[0], ins, needW) {
-							problems = append(problems, fmt.Sprintf("%s: %s calls %s without holding the lock it needs", e.pos(ins), fn.Name(), h.Name()))
+		// call sites of helpers; a caller that is itself an unexported helper on the same receiver and
+		// does not hold the lock passes the need on to its own callers (fixpoint)
+		{
+			mi := fieldIdx(guard[gnames[0]])
+			type site struct {
+				fn  *ssa.Function
+				ins *ssa.Call
+			}
+			checked := map[*ssa.Function]bool{}
+			callers := map[*ssa.Function]int{}
+			var pending []string
+			for changed := true; changed; {
+				changed = false
+				pending = nil
+				for h, needW := range helperNeeds {
+					_ = checked
+					for _, fn := range e.repoFunctions() {
+						calls := mutexCalls(fn, t, mi)
+						for _, b := range fn.Blocks {
+							for _, ins := range b.Instrs {
+								c, ok := ins.(*ssa.Call)
+								if !ok || c.Call.StaticCallee() != h || len(c.Call.Args) == 0 {
+									continue
+								}
+								callers[h]++
+								if holds(fn, calls, c.Call.Args[0], ins, needW) {
+									continue
+								}
+								if len(fn.Params) > 0 && c.Call.Args[0] == fn.Params[0] && fn.Object() != nil && !fn.Object().Exported() && fn.Pkg != nil && fn.Pkg.Pkg.Path() == pkgPath {
+									if cur, seen := helperNeeds[fn]; !seen || (needW && !cur) {
+										helperNeeds[fn] = needW || cur
+										changed = true
+									}
+									continue
+								}
+								pending = append(pending, fmt.Sprintf("%s: %s calls %s without holding the lock it needs", e.pos(ins), fn.Name(), h.Name()))
+							}
 						}
 					}
 				}
 			}
-			if callers == 0 {
-				problems = append(problems, fmt.Sprintf("helper %s accesses guarded fields without a lock and has no checked call site", h.Name()))
+			problems = append(problems, pending...)
+			for h := range helperNeeds {
+				if callers[h] == 0 {
+					problems = append(problems, fmt.Sprintf("helper %s accesses guarded fields without a lock and has no checked call site", h.Name()))
+				}
 			}
 		}
 		out = append(out, structOblig("lock-held/"+tk[strings.LastIndex(tk, "/")+1:], "lock-held",
@@ -335,9 +364,25 @@ func (e *Engine) spawnWiring(prop string) []*Oblig {
 						problems = append(problems, fmt.Sprintf("%s: goroutine with a callee that cannot be resolved", e.pos(ins)))
 						continue
 					}
+					// the stages a goroutine runs: the functions under contract reachable from the spawned
+					// function through function literals and helpers that carry no contract of their own
 					var stages []*ssa.Function
-					if callee.Parent() != nil { // function literal: the repository functions it calls
-						for _, cb := range callee.Blocks {
+					seenFn := map[*ssa.Function]bool{}
+					var walk func(f *ssa.Function, depth int) bool
+					walk = func(f *ssa.Function, depth int) bool {
+						if f == nil || depth > 3 {
+							return false
+						}
+						if seenFn[f] {
+							return true
+						}
+						seenFn[f] = true
+						if f.Parent() == nil && (e.lib.Contracts[f.String()] != nil || f.Blocks == nil) {
+							stages = append(stages, f)
+							return true
+						}
+						found := false
+						for _, cb := range f.Blocks {
 							for _, ci := range cb.Instrs {
 								var cc *ssa.CallCommon
 								switch x := ci.(type) {
@@ -352,13 +397,20 @@ func (e *Engine) spawnWiring(prop string) []*Oblig {
 									continue
 								}
 								if c := cc.StaticCallee(); c != nil && e.inRepoStrict(c) {
-									stages = append(stages, c)
+									if walk(c, depth+1) {
+										found = true
+									}
 								}
 							}
 						}
-					} else {
-						stages = []*ssa.Function{callee}
+						if !found {
+							// a helper or function literal that reaches no function under contract does the
+							// goroutine's work itself: it is the stage
+							stages = append(stages, f)
+						}
+						return true
 					}
+					walk(callee, 0)
 					for _, st := range stages {
 						if !allowed[st.Name()] {
 							problems = append(problems, fmt.Sprintf("%s: the goroutine started here runs %s, which is not one of the stages the contract names (%s)", e.pos(ins), st.Name(), strings.Join(sp.Names, ", ")))
@@ -661,7 +713,7 @@ func waitsFor(f *ssa.Function, goIns *ssa.Go, sig signal, origin ssa.Value, viaL
 			case *ssa.Call:
 				if sig.kind == "wg" {
 					if callee := x.Call.StaticCallee(); callee != nil && callee.Pkg != nil && callee.Pkg.Pkg.Path() == "sync" && callee.Name() == "Wait" && len(x.Call.Args) > 0 {
-						if x.Call.Args[0] == origin {
+						if x.Call.Args[0] == origin || sameObj(x.Call.Args[0]) {
 							wait = true
 						}
 					}
@@ -686,7 +738,7 @@ func waitsFor(f *ssa.Function, goIns *ssa.Go, sig signal, origin ssa.Value, viaL
 				for _, ab := range f.Blocks {
 					for _, ai := range ab.Instrs {
 						if c, isCall := ai.(*ssa.Call); isCall {
-							if callee := c.Call.StaticCallee(); callee != nil && callee.Pkg != nil && callee.Pkg.Pkg.Path() == "sync" && callee.Name() == "Add" && len(c.Call.Args) > 0 && c.Call.Args[0] == origin && instrDominates(ai, goIns) {
+							if callee := c.Call.StaticCallee(); callee != nil && callee.Pkg != nil && callee.Pkg.Pkg.Path() == "sync" && callee.Name() == "Add" && len(c.Call.Args) > 0 && (c.Call.Args[0] == origin || sameObj(c.Call.Args[0])) && instrDominates(ai, goIns) {
 								added = true
 							}
 						}
